@@ -26,6 +26,7 @@ std::map<std::string, std::string> g_sessTag;
 int g_childCount = 0;
 int g_queueCount = 0;
 std::map<const void*, QueueInfo>* g_queues = nullptr;
+void (*g_trackContent)(bool enter, const std::string& elem) = nullptr;
 
 static const char* stateName(InterpreterState s) {
 	switch (s) {
@@ -193,9 +194,18 @@ static void createInterp(const std::string& actor, const js::Value& op) {
 			else
 				al.delayQueue = DelayedEventQueue(std::shared_ptr<DelayedEventQueueImpl>(new RecDelayQueue(impl)));
 		}
+		if (op.has("dm_faults")) {
+			al.dataModel = makeFaultyDataModel(interp, op["dm_faults"], s.tag);
+			g_trackContent = [](bool enter, const std::string& elem) {
+				if (enter) g_contentStack.push_back(elem);
+				else {
+					if (!g_contentStack.empty()) g_contentStack.pop_back();
+					contentLeft();
+				}
+			};
+		}
 		interp.setActionLanguage(al);
 		if (op["monitor"].boolean(true)) interp.addMonitor(&R->monitor);
-		if (op.has("dm_faults")) installFaultPlan(interp, op["dm_faults"]);
 		s.interp = interp;
 		std::string ext, in, dl;
 		if (op["rec_queues"].boolean(true)) {
@@ -480,6 +490,7 @@ void runPlan(const js::Value& plan) {
 	tr::hash = 1469598103934665603ull;
 	usim::ev::reset_counters();
 	resetFaultStats();
+	g_trackContent = nullptr;
 
 	const js::Value& sc = plan["sched"];
 	usim::Config cfg;
